@@ -216,7 +216,7 @@ Qed.
 
 Lemma lex_app_and A B ta tb :
   lex A = inr ta -> lex B = inr tb ->
-  lex (A ++ glue_and ++ B) = inr (ta ++ TConn CAnd :: tb)%list.
+  lex (A ++ " and " ++ B) = inr (ta ++ TConn CAnd :: tb)%list.
 Proof.
   unfold lex. intros HA HB.
   destruct (lrun SIdle A) as [e | [t1 st1]] eqn:EA; [discriminate|].
@@ -226,7 +226,6 @@ Proof.
   destruct (flush st2) as [e | tf2] eqn:EF2; [discriminate|].
   inversion HB; subst tb.
   rewrite lrun_app, EA.
-  change glue_and with " and ".
   rewrite (lrun_and _ _ _ EF), EB, EF2.
   now rewrite <- !app_assoc.
 Qed.
@@ -294,4 +293,47 @@ Proof.
   unfold parse_marker_text. destruct (lex s) as [[|] | ts]; try discriminate.
   destruct (parse_list_fuel (S (List.length ts)) ts ltac:(lia)) as [H _].
   destruct (parse_list (S (List.length ts)) ts) as [[l [|x r]]| | |]; try discriminate. contradiction.
+Qed.
+
+
+(* ------------------------------------------------------------------ parenthesised texts *)
+Lemma lstep_rparen st tf :
+  flush st = inr tf -> lstep st ")"%char = inr ((tf ++ [TR])%list, SIdle).
+Proof.
+  destruct st as [| acc | acc | q acc]; cbn [flush]; intros H.
+  - inversion H; subst. reflexivity.
+  - cbn [lstep]. change (is_word_char ")"%char) with false. cbn [flush].
+    destruct (classify_word (rev_str acc)) as [e | t]; [discriminate|].
+    inversion H; subst. reflexivity.
+  - cbn [lstep]. change (is_op_char ")"%char) with false. cbn [flush].
+    destruct (classify_op (rev_str acc)) as [e | t]; [discriminate|].
+    inversion H; subst. reflexivity.
+  - discriminate.
+Qed.
+
+Lemma lex_paren A ta : lex A = inr ta -> lex ("(" ++ A ++ ")") = inr (TL :: ta ++ [TR])%list.
+Proof.
+  unfold lex. intros HA.
+  destruct (lrun SIdle A) as [e | [t1 st1]] eqn:EA; [discriminate|].
+  destruct (flush st1) as [e | tf] eqn:EF; [discriminate|].
+  inversion HA; subst ta.
+  change ("(" ++ A ++ ")") with (String "("%char (A ++ ")")).
+  rewrite lrun_cons. change (lstep SIdle "("%char) with (@inr lerr _ ([TL], SIdle)). lazy beta iota.
+  rewrite lrun_app, EA. change ")" with (String ")"%char ""). rewrite lrun_cons, (lstep_rparen _ _ EF).
+  cbn [lrun flush]. rewrite !app_nil_r. cbn [app]. now rewrite <- app_assoc.
+Qed.
+
+(* a list that consumed everything, followed by a closing parenthesis: same parse, the rest untouched *)
+Lemma parse_list_app_end f : forall ts l X,
+  parse_list f ts = POk (l, []) -> parse_list f (ts ++ TR :: X)%list = POk (l, TR :: X).
+Proof.
+  induction f as [|f IH]; intros ts l X; [discriminate|].
+  cbn [parse_list].
+  destruct (parse_atom_with (parse_list f) ts) as [[m r0]| | |] eqn:E; try discriminate.
+  rewrite (atom_app _ (parse_list f) _ _ _ (TR :: X) (fun t l0 r1 => parse_list_app_stop f t l0 r1 (TR :: X)) E).
+  destruct r0 as [|t r0].
+  - intros H. inversion H; subst. reflexivity.
+  - destruct t; cbn [app]; try (intros H; inversion H; fail).
+    destruct (parse_list f r0) as [[l1 r1]| | |] eqn:E2; try discriminate.
+    intros H. inversion H; subst. rewrite (IH _ _ X E2). reflexivity.
 Qed.
